@@ -32,10 +32,11 @@ EXHAUSTIVE = {
 FLOORS = {
     "quick": {"steps": 20000, "queries": 100000, "commute_checks": 2000, "rejections": 3000,
               "kind_ext": 1000, "kind_branch": 1000, "kind_mixed": 1000, "kind_leaf": 1000, "kind_mark": 500,
-              "public_enumerations": 20000},
+              "public_enumerations": 20000, "nested_with_3_lengths": 100, "nested_parent_not_shortest": 50},
     "thorough": {"steps": 200000, "queries": 1000000, "commute_checks": 20000, "rejections": 30000,
                  "kind_ext": 10000, "kind_branch": 10000, "kind_mixed": 10000, "kind_leaf": 10000,
-                 "kind_mark": 5000, "public_enumerations": 200000},
+                 "kind_mark": 5000, "public_enumerations": 200000, "nested_with_3_lengths": 1000,
+                 "nested_parent_not_shortest": 500},
 }
 
 
@@ -175,6 +176,12 @@ def run_case(case, ctx):
                         p, segs, "duplicate" if kind == "bad_dup" else "nested"))
                 nf = fog
                 ctx.count("rejections")
+                if kind == "bad_nested":
+                    lens = sorted({len(x) for x in segs})
+                    ctx.count("nested_with_%d_lengths" % min(len(lens), 4))
+                    pair = [(a, b) for a in segs for b in segs if a != b and b[: len(a)] == a]
+                    if pair and len(pair[0][0]) > lens[0]:
+                        ctx.count("nested_parent_not_shortest")
         elif kind == "mark":
             if not sm:
                 break
@@ -235,6 +242,26 @@ def shrink(case, monitor):
     return shrink_list(sys.modules[__name__], case, monitor, field="steps")
 
 
+def gen_nested(rnd):
+    """Sub-segments with exactly one nested pair hidden among an otherwise valid antichain of
+    1..4 further segments of several distinct lengths: the parent may be the shortest segment,
+    one of middle length, or (rarely) the empty segment; the child extends it by 1-2 nibbles."""
+    firsts = rnd.sample(range(16), rnd.randint(1, 5))
+    segs = [[n] + [rnd.randrange(16) for _ in range(rnd.choice([0, 0, 1, 2, 3]))] for n in firsts]
+    parent = rnd.choice(segs)
+    r = rnd.random()
+    if r < 0.5 or len(parent) == 1:
+        segs.append(parent + [rnd.randrange(16) for _ in range(rnd.randint(1, 2))])
+    elif r < 0.95:
+        segs.append(parent[: rnd.randint(1, len(parent) - 1)])
+    else:
+        segs.append([])
+        if len(segs) == 1:
+            segs.append([rnd.randrange(16)])
+    rnd.shuffle(segs)
+    return segs
+
+
 def gen_case(rnd, maxsteps=12):
     steps = []
     for _ in range(rnd.randint(1, maxsteps)):
@@ -260,8 +287,7 @@ def gen_case(rnd, maxsteps=12):
             s = [rnd.randrange(16) for _ in range(rnd.randint(1, 2))]
             steps.append(["bad_dup", i, [s, [9], s]])
         else:
-            s = [rnd.randrange(16)]
-            steps.append(["bad_nested", i, rnd.choice([[s, s + [2]], [s + [2, 3], [8], s], [s + [1], s]])])
+            steps.append(["bad_nested", i, gen_nested(rnd)])
     return {"steps": steps, "qseed": rnd.randrange(1 << 30)}
 
 
